@@ -343,6 +343,43 @@ def run(tier, seed, which="C05"):
                         dict(kind="memory", where="%s.c:%s" % (mm.group(1), mm.group(2)) if mm else "", records=extra[k]["many"]))
         else:
             V.traces += 1
+    # several input files whose contents do not fit together (nucleotide then protein and the reverse; a good file then garbage;
+    # a good file then an empty one): the failure paths of reading into an existing object, under the sanitizers
+    sdir = os.path.join(wd, "multi")
+    os.makedirs(sdir, exist_ok=True)
+    dnaf = present.write(os.path.join(sdir, "d.fa"), kv.fasta([("d%d" % i, s) for i, s in enumerate(gen.family(rng, 4, 30, gen.DNA))]))
+    prof = present.write(os.path.join(sdir, "p.fa"), kv.fasta([("p%d" % i, s + "LKEF") for i, s in enumerate(gen.family(rng, 4, 30, gen.AA))]))
+    garb = present.write(os.path.join(sdir, "g.txt"), "no sequences here 123\n\n")
+    empt = present.write(os.path.join(sdir, "e.fa"), "")
+    one = present.write(os.path.join(sdir, "o.fa"), ">single\nACGTACGTTTGA\n")
+    combos = [[dnaf, prof], [prof, dnaf], [dnaf, garb], [garb, dnaf], [dnaf, empt], [empt, prof], [one, dnaf], [dnaf, one], [one, prof, dnaf], [dnaf, dnaf]]
+
+    def multi(k):
+        lines = ["level 0", "note F%d" % k, "read 0 %s" % " ".join(combos[k]), "dump 0 in full", "run 0 2 5 -1 -1 -1", "dump 0 out full",
+                 "write 0 fasta %s" % os.path.join(sdir, "m%d.out" % k), "free 0", "note done%d" % k]
+        tp, rc, err = kv.run_kvdrive("\n".join(lines) + "\n", sdir, "m%d" % k, variant="san", timeout=120)
+        rc2, so, se = kv.run_cli(combos[k] + ["-o", os.path.join(sdir, "c%d.out" % k)], variant="san", timeout=120)
+        return k, rc, err, rc2, se.decode("utf-8", "replace")
+    for k, rc, err, rc2, se in kv.pmap(multi, range(len(combos)), workers=8):
+        V.case("multi:%d" % k, True)
+        for what, r_, e_ in (("library", rc, err), ("command line", rc2, se)):
+            leak_only = "LeakSanitizer" in e_ and "ERROR: AddressSanitizer" not in e_ and "runtime error" not in e_
+            if leak_only:
+                # a leak counts on the success path only: every library call returned OK / kalign printed no error
+                if what == "library":
+                    rcs = [e.get("rc") for e in kv.read_trace(os.path.join(sdir, "m%d.ndjson" % k)) if e.get("e") == "Ret" and e.get("op") in ("read", "run", "write")]
+                    failed = any(x != 0 for x in rcs)
+                else:
+                    failed = " ERROR : " in e_ or "ERROR :" in e_
+                if failed:
+                    V.extra["error_path_leaks_ignored"] = V.extra.get("error_path_leaks_ignored", 0) + 1
+                    continue
+            if SAN_PAT.search(e_) or r_ in (124, 70) or r_ < 0 or r_ > 120:
+                first = [x for x in e_.splitlines() if "ERROR: " in x or "runtime error" in x]
+                mm = re.search(r"(msa_io|msa_op|msa_alloc|msa_check|alphabet|aln_\w+)\.c:(\d+)", e_)
+                V.violation("input files %s through the %s: exit %d %s" % ([os.path.basename(x) for x in combos[k]], what, r_, first[0][:200] if first else ""),
+                            kv.save_replay("C05", "multi%d" % k, combos[k]), dict(kind="memory", where="%s.c:%s" % (mm.group(1), mm.group(2)) if mm else "", files=[os.path.basename(x) for x in combos[k]]))
+        V.traces += 1
     # uninitialised-value use is invisible to ASan: a valgrind (memcheck) pass over executions that enter every region
     valgrind_part(V, wd, rng, tier)
     # (c) the command line
